@@ -118,15 +118,45 @@ def pool_names() -> list[str]:
         out += list(td["bound"])
     return sorted(set(out))
 TYPES = {
-    "t0": {"scalars": ["val"], "arrays": ["q"], "objs": {}, "bound": {}},
-    "t1": {"scalars": ["cnt"], "arrays": ["vals"], "objs": {"inner": "t0"},
+    "t0": {"scalars": ["val"], "arrays": ["q"], "objs": {}, "objarrs": {}, "bound": {"show": "sub", "peek": "fun"}},
+    "t1": {"scalars": ["cnt"], "arrays": ["vals"], "objs": {"inner": "t0"}, "objarrs": {"cells": "t2"},
            "bound": {"init": "sub", "get": "fun", "run": "sub"}},
-    "t2": {"scalars": ["cnt"], "arrays": ["w"], "objs": {},
+    # round 6: t2 extends t0 - it inherits the components `val`, `q` and the bindings `show`, `peek`,
+    # and has the parent component `t0`
+    "t2": {"scalars": ["cnt"], "arrays": ["w"], "objs": {}, "objarrs": {}, "extends": "t0",
            "bound": {"reset": "sub", "fetch": "fun", "stop_": "sub"}},
 }
-TYPES_COLLIDING = dict(TYPES, t2={"scalars": ["cnt"], "arrays": ["w"], "objs": {},
+TYPES_COLLIDING = dict(TYPES, t2={"scalars": ["cnt"], "arrays": ["w"], "objs": {}, "objarrs": {}, "extends": "t0",
                                   "bound": {"init": "sub", "get": "fun", "stop_": "sub"}})
+
+
+def type_parents(types, t):
+    out = []
+    while types[t].get("extends"):
+        t = types[t]["extends"]
+        out.append(t)
+    return out
+
+
+def type_members(types, t, key):
+    """members of kind `key` of type `t`, inherited ones included (own first)"""
+    out = list(types[t][key])
+    for p_ in type_parents(types, t):
+        out += [x for x in types[p_][key] if x not in out]
+    return out
+
+
+def type_bindings(types, t, kind):
+    """[(binding, declaring type)] of type `t` with the given kind, inherited ones included"""
+    out = [(b, t) for b, k in types[t]["bound"].items() if k == kind]
+    for p_ in type_parents(types, t):
+        out += [(b, p_) for b, k in types[p_]["bound"].items() if k == kind and b not in [x[0] for x in out]
+                and b not in types[t]["bound"]]
+    return out
 OBJS = {"a": "t1", "b": "t2", "c": "t1"}
+# round 6: arrays of derived type - a designator may carry a subscript list on ANY part of its
+# component chain (`oa(i) % vals(j)`, `a%cells(k) % fetch()`), not only on the last one
+OBJ_ARRS = {"oa": "t1", "ob": "t2"}
 SCALARS = ["x", "y", "z", "i", "j", "n", "ok"]
 LABELS = ["10", "20", "30", "100"]
 GOTO_SPELLINGS = ["go to", "goto", "GO TO", "GOTO", "Go To", "go  to", "GoTo"]
@@ -540,6 +570,16 @@ class SpecPart(SpecBase):
                     groups.append([T(r.choice([f"class({t})", f"type({t})", f"class ({t})"]), [r.choice(["intent(inout)", "intent(in)"])], [(o, "")])])
                 else:
                     groups.append([T(f"type({t})", ["target"] if r.random() < 0.15 else [], [(o, "")])])
+        # ---- arrays of objects (round 6)
+        k = r.random()
+        if k < 0.5:
+            groups.append([T("type(t1)", [], [("oa", "(5)")]), T(r.choice(["type(t2)", "type (t2)"]), [], [("ob", "(3)")])])
+        elif k < 0.8:
+            groups.append([T("type(t1)", [r.choice(["dimension(5)", "DIMENSION(5)"])], [("oa", "")]),
+                           T("type(t2)", self.shuffled(["target", "dimension(3)"]), [("ob", "")])])
+        else:
+            groups.append([T("type(t1)", ["allocatable"], [("oa", "(:)")]), T("type(t2)", [], [("ob", "(0:2)")])])
+        note("object-arrays")
         # ---- external procedures
         ext_stmt_names = []
         iface_names = []
@@ -806,6 +846,37 @@ class Gen:
             cands.append((k, v[1]))
         return self.r.choice(cands)
 
+    def via_parent(self, t):
+        """optionally the parent component (`b % t0 % q(1)`): [] or [(parent type name, None)]"""
+        ps = type_parents(self.u.types, t)
+        if ps and self.r.random() < 0.25:
+            self.note("parent-component")
+            return [(ps[0], None)]
+        return []
+
+    def members(self, t, key, parts):
+        """components of kind `key` reachable at the end of `parts` (after a parent component only
+        the parent's own and inherited ones)"""
+        if parts and parts[-1][0] in self.u.types and parts[-1][1] is None and parts[-1][0] in type_parents(self.u.types, t):
+            return type_members(self.u.types, parts[-1][0], key)
+        return type_members(self.u.types, t, key)
+
+    def chain(self, depth):
+        """(base, base subscripts | None, parts, type of the designated object): a designator of
+        an object of derived type in which some part carries a subscript list"""
+        r = self.r
+        k = r.random()
+        one = lambda: self.subs(depth, 1)
+        if k < 0.3:
+            return "oa", one(), [], "t1"
+        if k < 0.55:
+            return "ob", one(), [], "t2"
+        if k < 0.75:
+            return r.choice(["a", "c"]), None, [("cells", one())], "t2"
+        if k < 0.9:
+            return "oa", one(), [("cells", one())], "t2"
+        return "oa", one(), [("inner", None)], "t0"
+
     def subs(self, depth, n=1):
         out = []
         for _ in range(n):
@@ -848,18 +919,35 @@ class Gen:
             self.note("arrayref")
             names = self.u.arrs + [self.u.garr] + [n for n, _ in self.assoc_names("arr")]
             return ("arr", r.choice(names), self.subs(depth, r.choice([1, 1, 2])))
+        if k < 0.60 and r.random() < 0.45:
+            # round 6: a data reference / bound-function reference through an array of objects
+            b, bs, parts, t = self.chain(depth)
+            funs = type_bindings(self.u.types, t, "fun")
+            if funs and r.random() < 0.45:
+                self.note("bound-funref-through-array-element")
+                bn, owner = r.choice(funs)
+                if owner != t:
+                    self.note("inherited-binding")
+                return ("tbfx", b, bs, parts, owner, bn, self.args(depth, 0, 2))
+            self.note("component-of-array-element")
+            parts = parts + self.via_parent(t)
+            if r.random() < 0.7:
+                return ("compx", b, bs, parts + [(r.choice(self.members(t, "arrays", parts)), self.subs(depth))])
+            return ("compx", b, bs, parts + [(r.choice(self.members(t, "scalars", parts)), None)])
         if k < 0.60:
             self.note("component-array")
             o, t = self.obj()
             if self.u.types[t]["objs"] and r.random() < 0.4:
                 io, it = r.choice(list(self.u.types[t]["objs"].items()))
                 return ("comp", o, [(io, None), (r.choice(self.u.types[it]["arrays"]), self.subs(depth))])
-            return ("comp", o, [(r.choice(self.u.types[t]["arrays"]), self.subs(depth))])
+            return ("comp", o, [(r.choice(type_members(self.u.types, t, "arrays")), self.subs(depth))])
         if k < 0.70:
             self.note("bound-funref")
             o, t = self.obj()
-            b = r.choice([k for k, v in self.u.types[t]["bound"].items() if v == "fun"])
-            return ("tbf", o, t, b, self.args(depth, 0, 2))
+            b, owner = r.choice(type_bindings(self.u.types, t, "fun"))
+            if owner != t:
+                self.note("inherited-binding")
+            return ("tbf", o, owner, b, self.args(depth, 0, 2))
         if k < 0.74:
             self.note("constructor")
             return ("ctor", r.choice(["t0", "t1", "t2"]), self.args(depth, 1, 2))
@@ -882,6 +970,13 @@ class Gen:
             return ("var", r.choice(SCALARS))
         if k < 0.75:
             return ("arr", r.choice(self.u.warrs + [self.u.garr]), self.subs(1, 1))
+        if k >= 0.75 and r.random() < 0.35:
+            b, bs, parts, t = self.chain(1)
+            self.note("assign-to-component-of-array-element")
+            parts = parts + self.via_parent(t)
+            if r.random() < 0.6:
+                return ("compx", b, bs, parts + [(r.choice(self.members(t, "arrays", parts)), self.subs(1))])
+            return ("compx", b, bs, parts + [(r.choice(self.members(t, "scalars", parts)), None)])
         o, t = self.obj()
         if k < 0.88:
             return ("comp", o, [(r.choice(self.u.types[t]["scalars"]), None)])
@@ -890,11 +985,22 @@ class Gen:
     # ---- simple statements
     def call_stmt(self):
         r = self.r
+        if r.random() < 0.08:
+            b, bs, parts, t = self.chain(0)
+            sbs = type_bindings(self.u.types, t, "sub")
+            if sbs:
+                self.note("call-bound-through-array-element")
+                bn, owner = r.choice(sbs)
+                if owner != t:
+                    self.note("inherited-binding")
+                return ("callbx", b, bs, parts, owner, bn, self.args(0, 0, 2) if r.random() < 0.7 else None)
         if r.random() < 0.3:
             self.note("call-bound")
             o, t = self.obj()
-            b = r.choice([k for k, v in self.u.types[t]["bound"].items() if v == "sub"])
-            return ("callb", o, t, b, self.args(0, 0, 2) if r.random() < 0.7 else None)
+            b, owner = r.choice(type_bindings(self.u.types, t, "sub"))
+            if owner != t:
+                self.note("inherited-binding")
+            return ("callb", o, owner, b, self.args(0, 0, 2) if r.random() < 0.7 else None)
         if r.random() < 0.06 and Names.intr_s:
             # an intrinsic subroutine: nothing is invoked but what its arguments invoke
             self.note("call-intrinsic")
@@ -1130,7 +1236,18 @@ class Render:
         return self.e(s)
 
     def pct(self):
-        return self.r.choice(["%", "%", "%", " % ", "% "])
+        return self.r.choice(["%", "%", "%", " % ", "% ", " %"])
+
+    def designator(self, b, bs, parts):
+        """`base [(subs)] {% part [(subs)]}`: blanks are free around `%` and in front of `(`"""
+        s = self.name(b)
+        if bs is not None:
+            s += self.sp(0.15) + "(" + self.sp(0.1) + ", ".join(self.sub(x) for x in bs) + self.sp(0.1) + ")"
+        for cname, subs in parts:
+            s += self.pct() + self.name(cname)
+            if subs is not None:
+                s += self.sp(0.15) + "(" + ", ".join(self.sub(x) for x in subs) + ")"
+        return s
 
     def e(self, n):
         t = n[0]
@@ -1151,6 +1268,10 @@ class Render:
                 if subs is not None:
                     s += "(" + ", ".join(self.sub(x) for x in subs) + ")"
             return s
+        if t == "compx":
+            return self.designator(n[1], n[2], n[3])
+        if t == "tbfx":
+            return self.designator(n[1], n[2], n[3]) + self.pct() + self.name(n[5]) + self.sp(0.1) + self.arglist(n[6])
         if t == "tbf":
             return self.name(n[1]) + self.pct() + self.name(n[3]) + self.sp(0.1) + self.arglist(n[4])
         if t == "bin":
@@ -1191,6 +1312,11 @@ class Render:
             s = self.case("call") + " " + self.name(n[1]) + self.pct() + self.name(n[3])
             if n[4] is not None:
                 s += self.sp(0.1) + self.arglist(n[4])
+            return s
+        if t == "callbx":
+            s = self.case("call") + " " + self.designator(n[1], n[2], n[3]) + self.pct() + self.name(n[5])
+            if n[6] is not None:
+                s += self.sp(0.1) + self.arglist(n[6])
             return s
         if t == "goto":
             return n[2] + " " + n[1]
@@ -1299,6 +1425,7 @@ class Render:
 
 
 NO_JOIN = ("labelled", "format", "doc")
+FIXED_SHARE = 0.2     # share of the unit cases written as a fixed-form file (`c.f`)
 
 
 def layout(rng: random.Random, stmts: list[str], feat: set, logical: list | None = None) -> list[str]:
@@ -1397,6 +1524,134 @@ def layout(rng: random.Random, stmts: list[str], feat: set, logical: list | None
     return lines
 
 
+# --------------------------------------------------------------------------
+# fixed-form layout (round 6): the same statements written as cards
+# --------------------------------------------------------------------------
+
+FIXED_WIDTH = 66                      # columns 7-72
+CONT_MARKS = "&&&123456789+$*.xX>-:"  # any character but blank and `0` in column 6 continues the statement
+SEQ_FIELD = ["DK{n:06d}", "{n:08d}", "MAIN{n:04d}", "! was: call sa(1)", "call fa(2)", " x = fb(1)", ")", "'", "& ",
+             "!", "!! not a doc", "; call sb", "(", "\"it", "        ", "&", ",", "% init()", "C", "= 1"]
+COMMENT_CARDS = ["C     call sa(1)", "c", "*   y = fa(2)", "! note fb(3)", "", "   ", "C", "*", "c$    x = 1", "!     & fa(1)"]
+LOOSE_COMMENT_CARDS = ["      ! col 7 comment, call sb(1)", "          ", "        !x = fa(1)", "                  "]
+
+
+class Card(str):
+    """a physical line that is already laid out in columns"""
+
+
+def fixed_cut_positions(text: str, exact: bool) -> list[int]:
+    """Positions where a statement may be cut into cards.  FORD turns a continued card into
+    `text &` / `text`, which the reader joins with one blank, so a cut is placed where a blank
+    is harmless: next to a blank, or next to `,` `(` `)` `%` (not inside `(/`, `/)`, `()`), always
+    outside character literals.  `exact`: only at a single blank between two non-blanks (the
+    joined text is then character for character the uncut line)."""
+    lit = literal_mask(text)
+    out = []
+    for p_ in range(1, len(text)):
+        a, b = text[p_ - 1], text[p_]
+        if lit[p_ - 1] or lit[p_]:
+            continue
+        if exact:
+            if a == " " and b != " " and p_ >= 2 and text[p_ - 2] != " ":
+                out.append(p_)
+            continue
+        if a == " " or b == " ":
+            out.append(p_)
+        elif (a in ",()%" or b in ",()%") and (a, b) not in (("(", "/"), ("/", ")"), ("(", ")")):
+            out.append(p_)
+    return out
+
+
+def fixed_cards(rng: random.Random, text: str, feat: set, counter: list, exact: bool = False, p_cut: float = 0.2):
+    """One statement line (free-form text, possibly `;`-joined, possibly with a label in front) as
+    fixed-form cards.  Returns (cards, logical line) or None when the text cannot be laid out in
+    columns 7-72 with the cuts allowed."""
+    label = ""
+    body = text
+    m = re.match(r"(\d{1,5})\s+(?=\S)", text)
+    if m and not exact:
+        label, body = m.group(1), text[m.end():]
+    body = body.strip()
+    ind0 = rng.choice(["", "", " ", "  ", "   "])
+    allowed = fixed_cut_positions(body, exact)
+    pieces, start = [], 0
+    first = True
+    while True:
+        width = FIXED_WIDTH - (len(ind0) if first else 3)
+        must = len(body) - start > width
+        if not must and rng.random() >= (p_cut if first else 0.3):
+            break
+        cands = [q for q in allowed if start < q < len(body) and q - start <= width
+                 and body[start:q].strip() and body[q:].strip()]
+        if not cands:
+            if must:
+                return None
+            break
+        q = rng.choice(cands[-6:] if must else cands)
+        pieces.append(body[start:q])
+        start = q
+        first = False
+    pieces.append(body[start:])
+    if len(pieces[-1].strip()) > FIXED_WIDTH - 3:
+        return None
+    cards = []
+    for i, pc in enumerate(pieces):
+        if i == 0:
+            lab5 = "" if not label else rng.choice([label.rjust(5), label.ljust(5), (" " + label).ljust(5)[:5] if len(label) < 5 else label])
+            field = lab5.ljust(5) + rng.choice([" ", " ", " ", "0"]) + ind0 + (pc if exact else pc.strip())
+        else:
+            field = "     " + rng.choice(CONT_MARKS) + rng.choice(["", " ", "  ", "   "]) + pc.strip()
+            feat.add("fixed:continuation-card")
+            if rng.random() < 0.12:
+                cards.append(Card(rng.choice(COMMENT_CARDS)))
+                feat.add("fixed:comment-card-in-continuation")
+        if rng.random() < 0.5:
+            counter[0] += 10
+            seq = rng.choice(SEQ_FIELD).format(n=counter[0])
+            field = field.ljust(72) + seq
+            feat.add("fixed:sequence-field")
+            if i < len(pieces) - 1:
+                feat.add("fixed:sequence-field-on-continued-card")
+        cards.append(Card(field))
+    if len(pieces) > 1:
+        feat.add("fixed:continued-statement")
+    logical = ((label + " " + ind0) if label else "") + " ".join(pc.strip() for pc in pieces)
+    if exact:
+        logical = "".join(pieces)
+    return cards, logical
+
+
+def fixed_layout(rng: random.Random, stmts: list[str], feat: set, logical: list, counter: list):
+    """The executable part as fixed-form cards (`;` joins, continuation cards with any mark in
+    column 6, labels in columns 1-5, comment cards of every style, text in columns 73+).
+    Returns the cards, or None when a statement cannot be laid out."""
+    cards = []
+    k = 0
+    while k < len(stmts):
+        s0 = stmts[k]
+        text = s0
+        special = s0.startswith("!!") or s0[:1].isdigit()
+        while (not special and k + 1 < len(stmts) and rng.random() < 0.12
+               and not stmts[k + 1].startswith("!!") and not stmts[k + 1][:1].isdigit()):
+            k += 1
+            text += rng.choice(["; ", ";", " ; "]) + stmts[k]
+            feat.add("semicolon")
+        k += 1
+        if s0.startswith("!!"):
+            cards.append(Card(rng.choice(["      ", "!", "        "])[:0] + rng.choice(["      " + text, text, "         " + text])))
+            continue
+        r_ = fixed_cards(rng, text, feat, counter)
+        if r_ is None:
+            return None
+        cards += r_[0]
+        logical.append(r_[1])
+        if rng.random() < 0.08:
+            cards.append(Card(rng.choice(COMMENT_CARDS + LOOSE_COMMENT_CARDS)))
+            feat.add("fixed:comment-card")
+    return cards
+
+
 def literal_mask(text: str) -> list[bool]:
     """per character: does it belong to a character literal (delimiters included)?"""
     out = []
@@ -1447,6 +1702,8 @@ class Spec:
         self.sync = False
 
     def proc_id(self, name):
+        if name == "mk_t1":
+            return ("proc", name)       # module function that returns an object of type t1
         if name in self.u.generics:
             return ("generic", name)    # generic interface of the module
         if name in self.u.funcs or name in self.u.subs:
@@ -1494,6 +1751,12 @@ class Spec:
             self.invoke(("bound", n[2], n[3]), n[3])
             for a in n[4]:
                 self.e(a)
+        elif t in ("compx", "tbfx"):
+            self.designator(n[1], n[2], n[3])
+            if t == "tbfx":
+                self.invoke(("bound", n[4], n[5]), n[5])
+                for a in n[6]:
+                    self.e(a)
         elif t == "bin":
             self.e(n[2])
             self.e(n[3])
@@ -1508,6 +1771,18 @@ class Spec:
             self.e(n[1]); self.e(n[2])
         else:
             raise ValueError(n)
+
+    def designator(self, b, bs, parts):
+        """the parts of a designator invoke nothing; their subscripts may"""
+        if bs is not None:
+            self.refs.append((b, ("var", b)))
+            for x in bs:
+                self.sub(x)
+        for cname, subs in parts:
+            if subs is not None:
+                self.refs.append((cname, ("component", cname)))
+                for x in subs:
+                    self.sub(x)
 
     def sub(self, s):
         if isinstance(s, tuple) and s[0] == "slice":
@@ -1535,6 +1810,11 @@ class Spec:
         elif t == "callb":
             self.invoke(("bound", n[2], n[3]), n[3])
             for a in n[4] or []:
+                self.e(a)
+        elif t == "callbx":
+            self.designator(n[1], n[2], n[3])
+            self.invoke(("bound", n[4], n[5]), n[5])
+            for a in n[6] or []:
                 self.e(a)
         elif t == "icall":
             for a in n[2]:
@@ -1582,7 +1862,7 @@ class Spec:
         elif t == "labelled":
             inner = n[2]
             tgt = inner[2] if inner[0] == "ifstmt" else inner
-            noarg = (tgt[0] == "call" and tgt[2] is None) or (tgt[0] == "callb" and tgt[4] is None)
+            noarg = (tgt[0] == "call" and tgt[2] is None) or (tgt[0] == "callb" and tgt[4] is None) or (tgt[0] == "callbx" and tgt[6] is None)
             if noarg:
                 # only the CALL itself is in the special context, not the IF condition
                 if inner[0] == "ifstmt":
@@ -1689,10 +1969,13 @@ def classify_diff(spec: Spec, missing: set, extra: set, dup: list) -> tuple[set,
 # --------------------------------------------------------------------------
 
 
+MK_T1 = ["  function mk_t1(k) result(r)", "    integer, optional :: k", "    type(t1) :: r", "    r%cnt = 0", "  end function mk_t1"]
+
+
 def module_text(u: Universe) -> list[str]:
     L = ["module m_types", "  implicit none", f"  real :: {u.garr}(100)"]
     for tn, td in u.types.items():
-        L.append(f"  type :: {tn}")
+        L.append(f"  type, extends({td['extends']}) :: {tn}" if td.get("extends") else f"  type :: {tn}")
         for s in td["scalars"]:
             L.append(f"    integer :: {s}")
         for a in td["arrays"]:
@@ -1701,6 +1984,8 @@ def module_text(u: Universe) -> list[str]:
             L.append("    real, allocatable :: pvals(:)")
         for o, ot in td["objs"].items():
             L.append(f"    type({ot}) :: {o}")
+        for o, ot in td["objarrs"].items():
+            L.append(f"    type({ot}) :: {o}(4)")
         if td["bound"]:
             L.append("  contains")
             for b in td["bound"]:
@@ -1717,6 +2002,8 @@ def module_text(u: Universe) -> list[str]:
             else:
                 L += [f"  function {tn}_{b}(self, k, k2) result(r)", f"    class({tn}) :: self",
                       "    integer, optional :: k, k2", "    real :: r", "    r = 0.0", f"  end function {tn}_{b}"]
+    if not getattr(u, "mk_after", False):
+        L += MK_T1
     for f in u.module_funcs:
         L += [f"  function {f}(p1, p2, p3) result(r)", "    real, optional :: p1, p2, p3", "    real :: r", "    r = 1.0",
               f"  end function {f}"]
@@ -1725,27 +2012,28 @@ def module_text(u: Universe) -> list[str]:
     return L
 
 
-def unit_text(cu, per: dict) -> list[str]:
+def unit_text(cu, per: dict, fixed: bool = False) -> list[str]:
     """physical lines of one unit (with its internal procedures)"""
-    t = [cu.spec.head] + ["  " + d for d in cu.spec.lines()] + per[cu.name]["phys"]
+    t = [cu.spec.head] + [d if fixed else "  " + d for d in cu.spec.lines()] + per[cu.name]["phys"]
     if cu.internals:
         t.append(per[cu.name].get("contains", "contains"))
         for iu in cu.internals:
-            t += ["  " + l for l in unit_text(iu, per)]
+            t += [l if fixed else "  " + l for l in unit_text(iu, per, fixed)]
     t.append(f"end {cu.unit_kind} {cu.name}")
     return t
 
 
-def build_file(u: Universe, per: dict) -> list[str]:
-    """physical lines of the generated file"""
+def build_file(u: Universe, per: dict, fixed: bool = False) -> list[str]:
+    """physical lines of the generated file (`fixed`: the lines of the executable parts are cards
+    already, all other lines are statements still to be laid out in columns)"""
     mod = module_text(u)
-    unit = unit_text(u, per)
+    unit = unit_text(u, per, fixed)
     if u.ctx in ("program", "external"):
         return mod + ["end module m_types", ""] + unit
     if u.ctx == "other-module":
         top = ["module m_unit"] + ([] if u.spec.use_in_unit else ["  use m_types"]) + ["  implicit none", "contains"]
         return mod + ["end module m_types", ""] + top + unit + ["end module m_unit"]
-    return mod + unit + ["end module m_types"]
+    return mod + unit + (MK_T1 if getattr(u, "mk_after", False) else []) + ["end module m_types"]
 
 
 def host_names(cu, host_vars=None):
@@ -1755,7 +2043,7 @@ def host_names(cu, host_vars=None):
     result variable (`host_vars`: the host's `variables` as the model computed them)."""
     u = cu.host if cu.ctx == "internal" else cu
     types = list(TYPES)
-    procs = list(u.module_funcs) + list(u.module_subs) + [f"{t}_{b}" for t, td in u.types.items() for b in td["bound"]]
+    procs = list(u.module_funcs) + list(u.module_subs) + [f"{t}_{b}" for t, td in u.types.items() for b in td["bound"]] + ["mk_t1"]
     if u.ctx in ("same-module", "other-module"):
         procs.append(UNIT_NAME)      # a sibling of itself in its module; a program / external procedure has no host
     procs += list(u.internal_names) + list(u.spec.iface_ext) + list(u.generics)
@@ -1763,6 +2051,96 @@ def host_names(cu, host_vars=None):
     if cu.ctx == "internal":
         hv += list(host_vars or []) + [a.lower() for a in u.spec.args] + ([u.spec.ret.lower()] if u.spec.ret else [])
     return procs, types, hv
+
+
+# --------------------------------------------------------------------------
+# what the chain model (CallsChain.lean) is told about the generated file (round 6)
+# --------------------------------------------------------------------------
+
+
+def world_fields(u) -> tuple[str, list[str]]:
+    """(procedures visible from the scope of the derived types `name:result type;...`,
+    one field per derived type `name|binding:declaring type;...|component:type;...|parent;...`)
+    - from the GENERATED declarations, inherited members included"""
+    u = u.host if u.ctx == "internal" else u
+    types = u.types
+    tds = []
+    for tn in types:
+        ps = type_parents(types, tn)
+        bound = [(b, tn) for b in types[tn]["bound"]]
+        for p_ in ps:
+            bound += [(b, p_) for b in types[p_]["bound"] if b not in [x[0] for x in bound]]
+        comps = []
+        for t_ in [tn] + ps:
+            td = types[t_]
+            own = ([(c, "integer") for c in td["scalars"]] + [(c, "real") for c in td["arrays"]]
+                   + ([("pvals", "real")] if t_ == "t1" else []) + list(td["objs"].items()) + list(td["objarrs"].items()))
+            comps += [c for c in own if c[0] not in [x[0] for x in comps]]
+        tds.append(f"{tn}|" + ";".join(f"{b}:{o}" for b, o in bound) + "|" + ";".join(f"{c}:{t_}" for c, t_ in comps)
+                   + "|" + ";".join(ps))
+    procs = ([(f, "real") for f in u.module_funcs] + [(s_, "") for s_ in u.module_subs]
+             + [(f"{t}_{b}", "real" if k == "fun" else "") for t, td in types.items() for b, k in td["bound"].items()]
+             + [("mk_t1", "t1")] + [(g, "") for g in u.generics])
+    if u.ctx in ("same-module",):
+        procs.append((UNIT_NAME, "real" if u.unit_kind == "function" else ""))
+    return ";".join(f"{n}:{t_}" for n, t_ in procs), tds
+
+
+def var_types(cu) -> str:
+    """`name:type name;...` for every entity the generated specification part (and, for an internal
+    procedure, the host's) declares with a derived type"""
+    out = {}
+    specs = ([cu.host.spec] if cu.ctx == "internal" else []) + [cu.spec]
+    for sp_ in specs:
+        for st in sp_.stmts:
+            if st[0] != "T":
+                continue
+            m = re.match(r"(?:type|class)\s*\(\s*(\w+)\s*\)\s*$", st[1].strip(), re.I)
+            for n, _ in st[4]:
+                if m:
+                    out[n.lower()] = m.group(1).lower()
+                else:
+                    out.pop(n.lower(), None)
+    return ";".join(f"{n}:{t_}" for n, t_ in out.items())
+
+
+def probe_chains(rng: random.Random, cu, n: int) -> list[list[str]]:
+    """random label chains over the names of the universe (sensible designators and nonsense):
+    `_find_chain_item` is total, the model must agree with it on every chain"""
+    u = cu.host if cu.ctx == "internal" else cu
+    roots = ["a", "b", "c", "oa", "ob", "x", "i", "garr", "t0", "t1", "t2", "mk_t1", "zz", UNIT_NAME] + list(cu.arrs) + list(cu.funcs) + list(cu.subs) + list(cu.extf)
+    inner = ["val", "q", "cnt", "vals", "inner", "cells", "w", "pvals", "t0", "t1", "zz", "mk_t1", "t1_get"] + list(u.module_funcs[:2])
+    for td in u.types.values():
+        inner += list(td["bound"])
+    out = []
+    objs = {"a": "t1", "b": "t2", "c": "t1", "oa": "t1", "ob": "t2", "mk_t1": "t1", "t1": "t1", "t2": "t2"}
+    for _ in range(n):
+        if rng.random() < 0.5:
+            # a walk along the declared types: object, object-valued components (parent component
+            # included), then a component / binding / nonsense label
+            o = rng.choice(list(objs))
+            t = objs[o]
+            ch = [o]
+            for _ in range(rng.choice([0, 0, 1, 1, 2])):
+                nxt = dict(u.types[t]["objs"]); nxt.update(u.types[t]["objarrs"])
+                for p_ in type_parents(u.types, t):
+                    nxt[p_] = p_
+                if not nxt:
+                    break
+                c_ = rng.choice(sorted(nxt))
+                ch.append(c_)
+                t = nxt[c_]
+            last = (type_members(u.types, t, "scalars") + type_members(u.types, t, "arrays")
+                    + [b_ for b_, _ in type_bindings(u.types, t, "sub") + type_bindings(u.types, t, "fun")] + ["zz", "fa"])
+            ch.append(rng.choice(last))
+            out.append([c.lower() for c in ch])
+            continue
+        ln = rng.choice([1, 2, 2, 3, 3, 4])
+        ch = [rng.choice(roots[:12] if rng.random() < 0.7 else roots)]
+        for _ in range(ln - 1):
+            ch.append(rng.choice(inner))
+        out.append([c.lower() for c in ch])
+    return out
 
 
 # --------------------------------------------------------------------------
@@ -1779,14 +2157,29 @@ class Impl:
         import ford.reader as rd
         self.fp, self.sf, self.st, self.rd = fp, sf, st, rd
 
-    def reader_lines(self, path: Path) -> list[str]:
+    def reader_lines(self, path: Path, fixed: bool = False) -> list[str]:
         s = self.st.ProjectSettings()
         with common.quiet():
-            return list(self.rd.FortranReader(str(path), s.docmark, s.predocmark, s.docmark_alt, s.predocmark_alt))
+            return list(self.rd.FortranReader(str(path), s.docmark, s.predocmark, s.docmark_alt, s.predocmark_alt,
+                                              fixed=fixed, length_limit=s.fixed_length_limit))
 
-    def run(self, srcdir: Path):
+    def item_str(self, it) -> str:
+        """what `_find_chain_item` returned, in the notation of the chain model"""
+        sf = self.sf
+        if it is None:
+            return "-"
+        if isinstance(it, sf.FortranVariable):
+            return "v:" + it.name.lower()
+        if isinstance(it, sf.FortranType):
+            return "t:" + it.name.lower()
+        if isinstance(it, sf.FortranBoundProcedure):
+            return "b:" + str(getattr(it.parent, "name", "?")).lower() + ":" + it.name.lower()
+        return "p:" + str(getattr(it, "name", "?")).lower()
+
+    def run(self, srcdir: Path, probes: dict | None = None):
         """per unit (the unit under test and its internal procedures): (pre-correlate chains,
-        post-correlate identities, scope), or an error string"""
+        post-correlate identities, scope, what `_find_chain_item` returns for the probe chains),
+        or an error string"""
         self.sf.namelist = self.sf.NameSelector()
         settings = self.st.ProjectSettings(src_dir=[srcdir], preprocess=False, dbg=False)
         try:
@@ -1804,9 +2197,36 @@ class Impl:
                              "args": [str(getattr(a, "name", a)).lower() for a in getattr(un, "args", [])],
                              "retvar": (str(getattr(un.retvar, "name", un.retvar)).lower()
                                         if getattr(un, "retvar", None) is not None else None)}
-            with common.quiet():
-                proj.correlate()
-            return ("ok", {un.name.lower(): (pre[un.name.lower()], [self.ident(c) for c in un.calls], scope[un.name.lower()])
+            # the probe chains are resolved by the real `_find_chain_item` at the moment the calls loop of
+            # `correlate` uses it (later the variables' types are rewritten into links): hooked on the
+            # first call per unit; a unit without recorded chains is not probed
+            found = {}
+            orig = self.sf.FortranCodeUnit._find_chain_item
+            wanted = {id(un): un.name.lower() for un in units}
+
+            def hooked(this, chain, orig=orig, found=found, wanted=wanted):
+                nm = wanted.get(id(this))
+                if nm is not None and nm not in found:
+                    found[nm] = None
+                    out = []
+                    for ch in (probes or {}).get(nm, []):
+                        try:
+                            out.append(self.item_str(orig(this, list(ch))))
+                        except AttributeError:
+                            # a function that is not correlated yet has no `all_types`: a chain that goes
+                            # THROUGH a function (`f()%x`, no Fortran designator) is outside the compared domain
+                            out.append("!")
+                    found[nm] = out
+                return orig(this, chain)
+
+            self.sf.FortranCodeUnit._find_chain_item = hooked
+            try:
+                with common.quiet():
+                    proj.correlate()
+            finally:
+                self.sf.FortranCodeUnit._find_chain_item = orig
+            return ("ok", {un.name.lower(): (pre[un.name.lower()], [self.ident(c) for c in un.calls], scope[un.name.lower()],
+                                             found.get(un.name.lower()))
                            for un in units})
         except Exception as e:  # noqa
             return ("err", f"{type(e).__name__}: {e}")
@@ -1994,11 +2414,74 @@ def make_case(seed_tuple):
         g.kinds = kinds
         n = rng.choice([2, 3, 4, 5, 6, 8]) if cu is u else rng.choice([1, 2, 3, 4])
         bodies.append([g.stmt(0) for _ in range(n)])
+    # round 6: the selector of an ASSOCIATE may be a function reference that returns an object
+    # (`associate (p => mk_t1(2))` ... `p%get()`): the chain through the associate name then STARTS
+    # at a function.  Where the module function stands relative to the unit is free in Fortran.
+    # (decided by an RNG of its own, so that all other cases stay as they were)
+    r2 = random.Random(str((seed_tuple, "selector-function")))
+    u.mk_after = u.ctx == "same-module" and r2.random() < 0.5
+    u.fun_selectors = 0
+
+    def selector_pass(b):
+        out = []
+        for s_ in b:
+            if s_[0] == "associate":
+                items = []
+                for nm, ex in s_[1]:
+                    if ex[0] == "var" and OBJS.get(ex[1]) == "t1" and r2.random() < 0.2:
+                        ex = ("fun", "mk_t1", [("num", r2.choice(["1", "2"]))])
+                        u.fun_selectors += 1
+                        kinds["associate-selector-function-reference"] = kinds.get("associate-selector-function-reference", 0) + 1
+                    items.append((nm, ex))
+                s_ = (s_[0], items, selector_pass(s_[2])) + tuple(s_[3:])
+            else:
+                for key, inner in sub_bodies(s_):
+                    s_ = replace_body(s_, key, selector_pass(inner))
+            out.append(s_)
+        return out
+
+    bodies = [selector_pass(b) for b in bodies]
     return rng, u, kinds, bodies
 
 
-def render_case(u: Universe, bodies, layout_seed):
+def render_case_fixed(u: Universe, bodies, layout_seed):
+    """the case as a fixed-form file, or None when some line cannot be laid out in columns 7-72"""
+    rr = random.Random(str((layout_seed, "fixed")))
+    per = {}
+    feat = {"fixed-form"}
+    counter = [0]
+    for cu, body in zip(u.units(), bodies):
+        out = []
+        Render(rr).stmts(body, out)
+        logical = []
+        phys = fixed_layout(rr, out, feat, logical, counter)
+        if phys is None:
+            return None
+        per[cu.name] = {"stmts": out, "phys": phys, "logical": logical}
+    if u.internals:
+        per[u.name]["contains"] = rr.choice(["contains", "contains", "CONTAINS", "Contains"])
+        feat.add("internal-procedures")
+    lines = []
+    for l in build_file(u, per, fixed=True):
+        if isinstance(l, Card):
+            lines.append(str(l))
+        elif not l.strip():
+            lines.append(l)
+        else:
+            # every other line of the file: cut only where the joined text is exactly the line
+            r_ = fixed_cards(rr, l.strip(), feat, counter, exact=True, p_cut=0.08)
+            if r_ is None:
+                return None
+            lines += [str(c) for c in r_[0]]
+    return per, lines, feat
+
+
+def render_case(u: Universe, bodies, layout_seed, form=None):
     rr = random.Random(str(layout_seed))
+    if form != "free" and random.Random(str((layout_seed, "form"))).random() < FIXED_SHARE:
+        fx = render_case_fixed(u, bodies, layout_seed)
+        if fx is not None:
+            return fx
     per = {}
     feat = set()
     for cu, body in zip(u.units(), bodies):
@@ -2041,15 +2524,18 @@ def unit_slices(cu, rl: list[str] | None, start_at: int = 0):
 def evaluate(impl: Impl, u, bodies, layout_seed, d: Path):
     """Run the real code on one case; returns a dict with everything the comparison needs."""
     per, lines, feat = render_case(u, bodies, layout_seed)
+    fixed = "fixed-form" in feat
     src = d / "src"
     src.mkdir(exist_ok=True)
-    for old in src.glob("*.f90"):
+    for old in list(src.glob("*.f90")) + list(src.glob("*.f")):
         old.unlink()
-    path = src / "c.f90"
+    path = src / ("c.f" if fixed else "c.f90")
     path.write_text("".join(l + "\n" for l in lines))
-    res = impl.run(src)
+    prng = random.Random(str((layout_seed, "chains")))
+    probes = {cu.name: probe_chains(prng, cu, 8) for cu in u.units()}
+    res = impl.run(src, probes)
     try:
-        rl = impl.reader_lines(path)
+        rl = impl.reader_lines(path, fixed)
     except Exception as e:  # noqa
         rl = None
     units = []
@@ -2061,8 +2547,9 @@ def evaluate(impl: Impl, u, bodies, layout_seed, d: Path):
         r1 = res[1].get(cu.name) if res[0] == "ok" else None
         units.append({"cu": cu, "name": cu.name, "body": body, "stmts": per[cu.name]["stmts"],
                       "logical": per[cu.name]["logical"], "phys": per[cu.name]["phys"], "unit_lines": sl[0] if sl else None,
-                      "exec_statements": sl[1] if sl else None, "impl": r1})
-    return {"lines": lines, "feat": feat, "impl": res, "units": units}
+                      "exec_statements": sl[1] if sl else None, "impl": r1[:3] if r1 else None,
+                      "probes": probes[cu.name], "found": r1[3] if r1 else None})
+    return {"lines": lines, "feat": feat, "impl": res, "units": units, "fixed": fixed}
 
 
 def oracle(u: Universe, body, post):
@@ -2179,12 +2666,21 @@ def run(tier: str, seed: int, replay: str | None = None) -> int:
                        f"(Spec/CallsNames.lean): added {Names.added}, no longer withheld {sorted(Names.spec - Names.impl)}",
                        {"stream": "table", "added": Names.added, "dropped": sorted(Names.spec - Names.impl)})
     drv = Driver()
+    # which variant of the fixed-form converter is under test (the three edits of C14's repair): probed
+    try:
+        from ford.fixed2free2 import FortranLine as FL
+        fixed_variant = (("0" if FL("         \n").is_regular else "1")
+                         + ("0" if FL("      ! x\n").is_regular else "1")
+                         + ("1" if FL("      x = 1".ljust(72) + "SEQ\n").excess_line.startswith("! ") else "0"))
+    except Exception as e:  # noqa
+        rep.tie_broken(f"fixed-form: the real FortranLine raised on a probe line: {type(e).__name__}: {e}")
+        fixed_variant = "111"
     rng = random.Random(seed * 7919 + 8)
     n_micro = 7000 if tier == "quick" else 70000
     n_unit = 1500 if tier == "quick" else 15000
     ev_micro, bad_micro, micro_hist = micro_stream(impl, drv, rng, n_micro, rep, 6 if tier == "quick" else 8)
 
-    kinds_hist, feat_hist, gate_hist, spec_hist = {}, {}, {}, {}
+    kinds_hist, feat_hist, gate_hist, spec_hist, chain_hist = {}, {}, {}, {}, {}
     distinct = set()
     samples = []
     n_bad_corr = 0
@@ -2203,7 +2699,8 @@ def run(tier: str, seed: int, replay: str | None = None) -> int:
         n_units_total = len(flat)
         model = drv.batch([["c08.unit"] + (un["unit_lines"] or []) for _, un in flat])
         model_l = drv.batch([["c08.lines"] + un["logical"] for _, un in flat])
-        model_p = drv.batch([["c08.phys"] + un["phys"] for _, un in flat])
+        model_p = drv.batch([(["c08.fixed", fixed_variant, "1"] + [c + "\n" for c in un["phys"]]) if ev["fixed"]
+                             else ["c08.phys"] + un["phys"] for ev, un in flat])
 
         # the scope of the unit: the specification part as statements (attributes and names as
         # written) -> `unit.variables` after `_cleanup`, and the chains of length 1 `correlate`
@@ -2217,6 +2714,14 @@ def run(tier: str, seed: int, replay: str | None = None) -> int:
             return (["c08.scope", ",".join(sp_.args), sp_.ret or "-", "1" if sp_.ret_typed else "0",
                      ",".join(ps), ",".join(ts), ",".join(hv), str(len(fields))] + fields + ["%".join(c) for c in pre])
 
+        def chain_req(un, host_vars, mode, chains):
+            cu = un["cu"]
+            base = scope_req(un, host_vars)
+            nfields = int(base[7])
+            tprocs, tds = world_fields(cu)
+            return (["c08.chains"] + base[1:7] + [var_types(cu), "mk_t1:t1", tprocs, str(len(tds))] + tds
+                    + base[7:8 + nfields] + [mode] + ["%".join(c) for c in chains])
+
         hosts = [(ev, un) for ev, un in flat if un["cu"].ctx != "internal"]
         host_resp = drv.batch([scope_req(un) for _, un in hosts])
         host_vars = {}
@@ -2226,6 +2731,13 @@ def run(tier: str, seed: int, replay: str | None = None) -> int:
         inners = [(ev, un) for ev, un in flat if un["cu"].ctx == "internal"]
         for (ev, un), r_ in zip(inners, drv.batch([scope_req(un, host_vars[ev["k"]]) for ev, un in inners])):
             un["model2"] = r_
+        # chains of every length (round 6): `unit.calls` after correlate == `keptAll`; `_find_chain_item` on
+        # random label chains == `chainItem`
+        hv_of = lambda ev, un: host_vars[ev["k"]] if un["cu"].ctx == "internal" else None
+        for (ev, un), rk, rf in zip(flat,
+                                    drv.batch([chain_req(un, hv_of(ev, un), "K", un["impl"][0] if un["impl"] else []) for ev, un in flat]),
+                                    drv.batch([chain_req(un, hv_of(ev, un), "F", un["probes"]) for ev, un in flat])):
+            un["model_k"], un["model_f"] = rk, rf
         gate_reqs = []
         for ev in results[: 300 if tier == "quick" else 2000]:
             for un in ev["units"]:
@@ -2259,9 +2771,15 @@ def run(tier: str, seed: int, replay: str | None = None) -> int:
             if ev["impl"][0] != "ok" or any(un["unit_lines"] is None or un["impl"] is None for un in ev["units"]):
                 n_impl_err += 1
                 why = ev["impl"][1] if ev["impl"][0] != "ok" else "a generated unit was not found in the parsed project / reader output"
-                rep.tie_broken(f"unit case {k}: the implementation could not process a generated legal unit: {why}",
-                               dict(case0, impl=str(why)))
-                rep.failing_input(dict(case0, why="FORD raised on / lost a legal generated unit: " + str(why)), None)
+                fid = None
+                if (u.fun_selectors and ev["impl"][0] != "ok"
+                        and str(why) == "AttributeError: 'FortranFunction' object has no attribute 'all_types'"):
+                    # class: a chain recorded in the unit starts (after ASSOCIATE substitution) at a function
+                    fid = "C08-chain-through-uncorrelated-function-raises"
+                else:
+                    rep.tie_broken(f"unit case {k}: the implementation could not process a generated legal unit: {why}",
+                                   dict(case0, impl=str(why)))
+                rep.failing_input(dict(case0, why="FORD raised on / lost a legal generated unit: " + str(why)), fid)
                 continue
             for ui, un in enumerate(ev["units"]):
                 cu, body = un["cu"], un["body"]
@@ -2289,8 +2807,9 @@ def run(tier: str, seed: int, replay: str | None = None) -> int:
                 mop = un["model_p"]
                 if un["exec_statements"] is None or mop[0] != "ok" or mop[1:] != un["exec_statements"]:
                     n_bad_corr += 1
-                    rep.tie_broken(f"correspondence unit/continuation: reader model and reader differ on case {k} ({un['name']})",
-                                   dict(case, physical_lines=un["phys"], reader=un["exec_statements"], model=mop))
+                    rep.tie_broken(f"correspondence unit/{'fixed-form-cards' if ev['fixed'] else 'continuation'}: "
+                                   f"{'converter + ' if ev['fixed'] else ''}reader model and reader differ on case {k} ({un['name']})",
+                                   dict(case, physical_lines=[str(c) for c in un["phys"]], reader=un["exec_statements"], model=mop))
                 # (a') after correlate, chains of length 1
                 post_names = [p[-1] for p in post]
                 kept1 = [c[0] for c in pre if len(c) == 1 and c[0] in post_names]
@@ -2298,6 +2817,31 @@ def run(tier: str, seed: int, replay: str | None = None) -> int:
                     n_bad_corr += 1
                     rep.tie_broken(f"correspondence unit/post-correlate: model and implementation differ on case {k} ({un['name']})",
                                    dict(case, impl=kept1, model=mo2, pre=pre_s))
+                # (a3) chains of every length: `unit.calls` after correlate == the chain model's `keptAll`
+                want = [("n:" + p[1]) if p[0] == "name" else ("b:" + p[1] + ":" + p[2]) if p[0] == "bound" else ("p:" + p[-1])
+                        for p in post]
+                mk = un["model_k"]
+                got = [(":".join(x.split(":")[:2]) if x.startswith("p:") else x) for x in mk[1:]]
+                if mk[0] != "ok" or got != want:
+                    n_bad_corr += 1
+                    rep.tie_broken(f"correspondence unit/chain-resolution: chain model and implementation differ on case {k} ({un['name']})",
+                                   dict(case, impl=want, model=mk, pre=pre_s))
+                for x in mk[1:]:
+                    chain_hist["kept:" + x[:1]] = chain_hist.get("kept:" + x[:1], 0) + 1
+                chain_hist["chains-longer-than-1"] = chain_hist.get("chains-longer-than-1", 0) + sum(1 for c in pre if len(c) > 1)
+                chain_hist["chains-longer-than-2"] = chain_hist.get("chains-longer-than-2", 0) + sum(1 for c in pre if len(c) > 2)
+                # (a4) `_find_chain_item` on random label chains == `chainItem`
+                mf = un["model_f"]
+                gotf = [":".join(x.split(":")[:2]) if x[:2] in ("v:", "p:") else x for x in mf[1:]]
+                if un["found"] is not None and (mf[0] != "ok" or len(gotf) != len(un["found"])
+                                                or any(a_ != b_ for a_, b_ in zip(gotf, un["found"]) if b_ != "!")):
+                    n_bad_corr += 1
+                    rep.tie_broken(f"correspondence unit/find-chain-item: chain model and implementation differ on case {k} ({un['name']})",
+                                   dict(case, chains=["%".join(c) for c in un["probes"]], impl=un["found"], model=mf))
+                chain_hist["probes"] = chain_hist.get("probes", 0) + len(un["found"] or [])
+                for x, ch in zip(un["found"] or [], un["probes"]):
+                    key = f"probe:len{len(ch)}:" + x[:1]
+                    chain_hist[key] = chain_hist.get(key, 0) + 1
                 # (a'') the scope: `unit.variables` after `_cleanup` == the model's `scopeVarNames` of the
                 #       generated specification part; dummy arguments and result variable as generated
                 m_vars = [x for x in mo2[1].split(",") if x] if len(mo2) > 1 else None
@@ -2345,14 +2889,14 @@ def run(tier: str, seed: int, replay: str | None = None) -> int:
                         rep.failing_input(full, c)
     drv.close()
     rep.coverage.update(
-        evaluations=ev_micro + n_units_total,
+        evaluations=ev_micro + n_units_total + chain_hist.get("probes", 0),
         distinct_nontrivial=len(distinct),
         rule="unit cases are (random universe of overlapping names x random specification part x random executable part "
              "x random legal layout) for a module procedure / main program and its internal procedures; "
              "non-trivial = the real parser recorded at least one call chain for the unit; distinct by digest of the "
              "statements the reader delivered",
         samples=samples,
-        traces_validated_against_impl=ev_micro + 5 * n_units_total,
+        traces_validated_against_impl=ev_micro + 7 * n_units_total,
         correspondence_disagreements=n_bad_corr + bad_micro,
         oracle_failures=n_oracle_fail,
         implementation_errors=n_impl_err,
@@ -2361,6 +2905,7 @@ def run(tier: str, seed: int, replay: str | None = None) -> int:
         cascade_branch_histogram=dict(sorted(gate_hist.items())),
         specification_part_histogram=dict(sorted(spec_hist.items())),
         micro_histogram=micro_hist,
+        chain_resolution_histogram=dict(sorted(chain_hist.items())),
         generated_tables={"intrinsics": tinfo.get("intrinsics"), "intrinsics_probe": tinfo.get("intrinsics_probe"),
                           "names_added_to_specification": Names.added,
                           "names_no_longer_withheld": sorted(Names.spec - Names.impl),
@@ -2382,7 +2927,14 @@ def run(tier: str, seed: int, replay: str | None = None) -> int:
         "validated on the micro stream; FORMAT_RE and ARITH_GOTO_RE are not read by hand: their re._parser parse "
         "trees are regenerated on every run and interpreted by the model (list-of-successes matcher, ASCII "
         "IGNORECASE), also validated on the micro stream",
-        "chains longer than one element are compared before correlate() and by the oracle after it; "
-        "`_find_chain_item` itself is not modelled (C07)",
+        "chains of every length are compared before correlate() (scanner model), after it (chain model `keptAll`: "
+        "`_find_chain_item` + the calls loop) and judged by the oracle; the chain model is told the derived types, their "
+        "members (inherited ones included) and the declared type of every object from the GENERATED declarations; "
+        "`strip_type` and the copying of inherited members at the type's own correlate are outside the model; probe "
+        "chains that go THROUGH a function whose `all_types` does not exist yet (AttributeError in FORD, no Fortran "
+        "designator) are not compared",
+        "fixed-form cases: statements are cut into cards only where a blank is harmless (next to a blank or to one of "
+        "`,()%`), never inside a name or a literal (C14's territory); no inline `!` comment inside columns 7-72; the "
+        "length limit is on (default)",
     ]
     return rep.finish(lean)
